@@ -4,7 +4,7 @@ from ..runner import Harness
 from ..pse import truth
 from . import common as cm
 
-LOCATIONS = ["/srv/data", "/ascmhl", "/mnt/ascmhl/projects", "/vol/render.tmp/day1", "/a b/ü & co", "/.DS_Store/x", "/srv/R"]
+LOCATIONS = ["/srv/data", "/ascmhl", "/mnt/ascmhl/projects", "/vol/render.tmp/day1", "/a b/ü & co", "/.DS_Store/x", "/srv/R", "/Shoot [2024]/[B-cam] day 1"]
 ORDERS = ["sorted", "reversed", "rotated", "interleaved"]
 
 
